@@ -179,9 +179,11 @@ func (m *Morass) Push(e LessInterface) error {
 	}
 
 	if len(m.chunk) == m.chunkSize {
+		vstep(m, "push.spill", 0)
 		m.writable <- m.chunk
 		go m.write()
 		m.chunk = <-m.pool
+		vstep(m, "push.gotbuf", 0)
 		if err := m.err(); err != nil {
 			return err
 		}
@@ -199,13 +201,16 @@ func (m *Morass) Push(e LessInterface) error {
 
 func (m *Morass) write() {
 	writing := <-m.writable
+	vstep(m, "write.recv", 0)
 	defer func() {
+		vstep(m, "write.return", 0)
 		m.pool <- writing[:0]
 	}()
 
 	sort.Sort(writing)
 
 	tf, err := ioutil.TempFile(m.dir, m.prefix)
+	vstep(m, "write.created", 0)
 	if err != nil {
 		m.setErr(err)
 		return
@@ -218,15 +223,19 @@ func (m *Morass) write() {
 	m.filesLock.Lock()
 	m.files = append(m.files, f)
 	m.filesLock.Unlock()
+	vstep(m, "write.registered", 0)
 
 	for _, e := range writing {
 		if err := enc.Encode(&e); err != nil {
 			m.setErr(err)
 			return
 		}
+		vstep(m, "write.encoded", 0)
 	}
 
+	vstep(m, "write.presync", 0)
 	m.setErr(tf.Sync())
+	vstep(m, "write.synced", 0)
 }
 
 func (m *Morass) setErr(err error) {
@@ -250,6 +259,7 @@ func (m *Morass) Len() int64 { return m.len }
 // Finalise is called to indicate that the last element has been pushed on to the Morass
 // and write out final data.
 func (m *Morass) Finalise() error {
+	vstep(m, "final.enter", 0)
 	if err := m.err(); err != nil {
 		return err
 	}
@@ -273,6 +283,7 @@ func (m *Morass) Finalise() error {
 		return nil
 	}
 
+	vstep(m, "final.scan", 0)
 	if !m.fast {
 		for _, f := range m.files {
 			_, err := f.file.Seek(0, 0)
